@@ -144,7 +144,14 @@ func run(c Case) (v vkit.Verdict) {
 		if differ {
 			v.Class("datum_shift")
 		}
-		if c.Src.String() == c.Dst.String() {
+		na, nb := c.Src, c.Dst // +axis=enu is the default: spelled or not, the definitions are the same
+		if na.Axis == "enu" {
+			na.Axis = ""
+		}
+		if nb.Axis == "enu" {
+			nb.Axis = ""
+		}
+		if na.String() == nb.String() {
 			// Equal references: Go short-circuits to the identity (exact), proj4js goes to WGS84 and back with the
 			// small-angle inverse Helmert (off by ~0.1 mm for 7-parameter datums); nothing to compare
 			v.Class("identical_definitions_skipped")
